@@ -87,6 +87,8 @@ def fn1 (id : String) : Option (CType × CType × (Cell → Cell)) :=
   | "s.len" => some (.string, .int, fun c => match c with | .str (some s) => .int s.length | _ => .int (-1))
   | "s.isnil" => some (.string, .bool, fun c => match c with | .str none => .bool true | _ => .bool false)
   | "s.nilempty" => some (.string, .string, fun c => match c with | .str (some []) => .str none | y => y)
+  | "s.flen" => some (.string, .float, fun c => match c with
+      | .str (some s) => .float (fDiv (fOfInt s.length) (fOfInt 2)) | _ => .float (fDiv (fOfInt (-1)) (fOfInt 2)))
   | "s.nvl" => some (.string, .string, fun c => match c with | .str none => .str (some [78, 47, 65]) | y => y)
   | _ => none
 
